@@ -1,17 +1,17 @@
 SPECIFICATION SpecMC
 CONSTANTS
-  MaxSteps = 4
+  MaxSteps = 3
   Depth = 0
-  OpNames = {"AddHeader", "AddFooter", "AddHeaderWithPageNumber", "AddFooterWithPageNumber", "AddFormattedHeader", "AddFormattedFooter", "SetDifferentFirstPage", "PageSet", "AddImage", "AddListItem", "AddFootnote", "AddParagraph", "Save", "ToBytes", "Reopen", "Render"}
+  OpNames = {"AddHeader", "AddFooter", "AddHeaderWithPageNumber", "AddFooterWithPageNumber", "AddFormattedHeader", "AddFormattedFooter", "SetDifferentFirstPage", "PageSet", "AddImage", "AddListItem", "AddFootnote", "AddParagraph", "AddTable", "Save", "ToBytes", "Reopen", "Render"}
   HfC = {"h", "f"}
   KindsC = {"default", "first", "even"}
-  TextC = {"plain", "empty", "var"}
+  TextC = {"plain", "var"}
   ShowC = {TRUE, FALSE}
-  FmtC = {"nil", "bold"}
-  AlignC = {"", "center"}
+  FmtC = {"bold"}
+  AlignC = {"center"}
   CfgNilC = {TRUE}
-  PageC = {"SetPageMargins", "SetPageSettings"}
-  ViaC = {"mem", "file"}
+  PageC = {"SetPageMargins"}
+  ViaC = {"mem"}
   RViaC = {"doc", "legacy"}
   DataC = {"def", "undef"}
   LastC = {}
